@@ -7,7 +7,7 @@
    impedances against the model (stage dload, two frequencies on one object),
    and byte comparison of report and option file across fresh processes. *)
 From Coq Require Import ZArith List Bool Arith Sorting.Permutation.
-From PM Require Import Base.Num Base.Cplx Model.History Proofs.HistoryP.
+From PM Require Import Base.Num Base.Cplx Model.History Proofs.HistoryP Model.Session Proofs.SessionP.
 Import ListNotations.
 
 (* after ANY sequence of operations the cached values compute() uses are those
@@ -42,3 +42,33 @@ Theorem C14_writer_order_free :
   forall l1 l2 : list nat, Permutation l1 l2 -> sort_nat l1 = sort_nat l2.
 Proof. exact writer_order_free_proof. Qed.
 Print Assumptions C14_writer_order_free.
+
+(* Model/Session.v: what compute () leaves in memory (matrix, loads on it, right-hand side) over sessions of frequency
+   changes, computations, field requests and REPLACED sources on one object; tie: stage `session` runs the real
+   operation sequences of stage `hist` on the model inside Coq and compares the load multiplicity on the real matrix
+   and the non-zero positions of the real right-hand side.
+   After ANY session a computation leaves what it leaves on a fresh object with the same frequency and sources *)
+Theorem C14_session_history_free :
+  forall (F V : Type) (f0 : F) (l0 : list (nat * V)) (ops : list (sop F V)),
+    let s := srun F V Faithful (fresh_session F V f0 l0) ops in
+    sstep F V Faithful s SCompute = sstep F V Faithful (fresh_session F V (s_f s) (s_srcs s)) SCompute.
+Proof. exact session_history_free. Qed.
+Print Assumptions C14_session_history_free.
+
+Theorem C14_session_last_settings :
+  forall (F V : Type) (f0 : F) l0 ops f (l : list (nat * V)),
+    let s := srun F V Faithful (fresh_session F V f0 l0) (ops ++ [SSetF f; SSources l; SCompute]) in
+    s_f s = f /\ s_srcs s = l /\ s_loads s = 1 /\ s_rhs s = l.
+Proof. exact session_last_settings. Qed.
+Print Assumptions C14_session_last_settings.
+
+(* the statement is not empty: a compute () that keeps the matrix it finds adds the loads twice, one that only
+   overwrites the right-hand side keeps the entry of a removed source *)
+Theorem C14_lazy_matrix_refuted :
+  s_loads (srun nat nat LazyMatrix (fresh_session nat nat 7 [(0, 1)]) [SCompute; SCompute]) = 2.
+Proof. exact lazy_matrix_refuted. Qed.
+Print Assumptions C14_lazy_matrix_refuted.
+Theorem C14_stale_rhs_refuted :
+  s_rhs (srun nat nat StaleRhs (fresh_session nat nat 7 [(0, 1)]) [SCompute; SSources [(3, 1)]; SCompute]) = [(3, 1); (0, 1)].
+Proof. exact stale_rhs_refuted. Qed.
+Print Assumptions C14_stale_rhs_refuted.
